@@ -284,8 +284,8 @@ theorem decorateOne_frame (w w' : World) (key : String) (f : FnId) (inh : Bool)
 def Member.mentions (m : Member) (f : FnId) : Prop := ∃ which, memberFnId m which = some f
 
 theorem optDecorate_frame (w w' : World) (key : String) (o : Option FnId)
-    (base : Bool × List Nat × List Nat × List Nat)
-    (h : (match o with | some f => decorateOne w key f true base | none => .ok w) = .ok w') :
+    (base : FnId → Bool × List Nat × List Nat × List Nat)
+    (h : (match o with | some f => decorateOne w key f true (base f) | none => .ok w) = .ok w') :
     Frame (fun f => o = some f) w w' := by
   cases o with
   | none => cases h; exact Frame.refl _ _
@@ -312,11 +312,11 @@ theorem decorateMember_frame (w w' : World) (bases : List ClsId) (key : String) 
       split at h
       · cases h
       · next w2 h2 =>
-        have f1 := (optDecorate_frame _ _ _ _ _ h1).mono
+        have f1 := (optDecorate_frame _ _ _ g (fun f => collectBasesProp _ bases key 0 f) h1).mono
           (T := (Member.prop g s d).mentions) (fun f hf => ⟨0, by simp [memberFnId, hf]⟩)
-        have f2 := (optDecorate_frame _ _ _ _ _ h2).mono
+        have f2 := (optDecorate_frame _ _ _ s (fun f => collectBasesProp _ bases key 1 f) h2).mono
           (T := (Member.prop g s d).mentions) (fun f hf => ⟨1, by simp [memberFnId, hf]⟩)
-        have f3 := (optDecorate_frame _ _ _ _ _ h).mono
+        have f3 := (optDecorate_frame _ _ _ d (fun f => collectBasesProp _ bases key 2 f) h).mono
           (T := (Member.prop g s d).mentions) (fun f hf => ⟨2, by simp [memberFnId, hf]⟩)
         exact (f1.trans f2).trans f3
 
